@@ -799,7 +799,10 @@ def check_C06(world, hist, pred):
                     wt = ws.get("table")
                     if wt is not None and (rn["id"], nbg + si) not in mutated_steps:
                         ct = cs["table"]
-                        if ct is None or ct["headings"] != wt["headings"] or ct["rows"] != wt["rows"]:
+                        if ct is None or ct["headings"] != wt["headings"] or ct["rows"] != wt["rows"] or \
+                                ct.get("rows_by_name_disagree"):
+                            # (rows_by_name_disagree: a row answers row["heading"] with other headings
+                            #  than the table shows - the substituted heading did not reach the rows)
                             leak = any(c == "MUT" for r in (ct or {}).get("rows", []) for c in r) or \
                                 "MUT" in ((ct or {}).get("headings") or [])
                             out.append(V("C06", "row-leak" if leak else "step-table", "table" + key_sfx,
